@@ -457,6 +457,8 @@ def model_io(res):
     content = res["case"].get("_content") or {}
     sched = []
     k = 0
+    allocated = [a[2][0] for a in res["actions"] if a[1] in ("f", "k")]
+    res["same_name_twice"] = len(set(allocated)) != len(allocated) or any(n in num for n in allocated)
     for (idx, kind, arg) in res["actions"]:
         if kind == "r":
             sched.append("%d:r" % idx)
@@ -528,11 +530,11 @@ def pack_content(chunks):
 # --------------------------------------------------------------------------
 # exploring schedules
 
-def explore(case, limit, rng=None):
-    """depth-first enumeration of all baton choice sequences (stateless: every schedule is executed from a
-    fresh copy); returns (list of results, complete?)"""
+def explore(case, limit, root=()):
+    """depth-first enumeration of all baton choice sequences that start with `root` (stateless: every
+    schedule is executed from a fresh copy); returns (list of results, complete?)"""
     results = []
-    stack = [[]]
+    stack = [list(root)]
     seen = 0
     while stack and seen < limit:
         prefix = stack.pop()
@@ -550,11 +552,11 @@ def explore(case, limit, rng=None):
 
 
 def explore_task(task):
-    case, limit = task
+    case, limit, root = task
     env.boot()
     try:
         case = dict(case, _content=pack_content(case["chunks"]))
-        results, complete = explore(case, limit)
+        results, complete = explore(case, limit, root)
         slim = []
         for r in results:
             line, impl = model_io(r)
@@ -564,22 +566,26 @@ def explore_task(task):
                              missing_files=r["missing_files"], line=line, impl=impl,
                              reads=[(i, c[1], c[2], [k.decode() for k, v in c[3].items()])
                                     for i, rs in enumerate(r["results"]) for c in rs if c[0] == "read"],
-                             nactions=len(r["actions"]), kinds="".join(a[1] for a in r["actions"])))
+                             nactions=len(r["actions"]), kinds="".join(a[1] for a in r["actions"]),
+                             same_name_twice=r["same_name_twice"]))
         return dict(results=slim, complete=complete, error=None)
     except Exception as e:
         import traceback
         return dict(results=[], complete=False, error="%s: %s\n%s" % (type(e).__name__, e, traceback.format_exc()[-1200:]))
 
 
-PAIRS = [
-    # (chunks of the initial collection, programs)
+# (chunks of the initial collection, programs)
+PAIRS = [          # every schedule is enumerated in both tiers
     ([2, 1], [[("fetch", 1)], [("fetch", 1)]]),
     ([2, 1], [[("fetch", 1)], [("pack",)]]),
-    ([1, 1, 1], [[("pack",)], [("pack",)]]),
     ([2, 1], [[("pack",)], [("read",)]]),
     ([1, 1], [[("fetch", 2)], [("read",), ("read",)]]),
+]
+BIG_PAIRS = [      # sampled in the quick tier, enumerated in the thorough tier
+    ([1, 1, 1], [[("pack",)], [("pack",)]]),                         # mostly the excluded same-name input
     ([3, 1, 1, 1, 1, 1, 1], [[("fetch", 1)], [("fetch", 1)]]),      # 9 revisions in 7 packs: the 10th triggers autopack
     ([3, 1, 1, 1, 1, 1, 1], [[("fetch", 1)], [("pack",)]]),
+    ([2, 1], [[("fetch", 1), ("pack",)], [("fetch", 1)]]),
 ]
 TRIPLES = [
     ([2, 1], [[("fetch", 1)], [("pack",)], [("read",)]]),
@@ -623,19 +629,25 @@ def judge(ctx, r):
             ctx.violation(case, "reader %d could not read every listed revision" % i)
 
 
-def run(ctx, pairs=None, triples=None, limit=None):
+def run(ctx, limit=None):
     install()
-    pairs = PAIRS if pairs is None else pairs
-    triples = TRIPLES if triples is None else triples
-    limit2 = limit or ctx.pick(400, 4000)
-    limit3 = limit or ctx.pick(14, 250)
+    lim_big = limit or ctx.pick(60, 3000)
+    lim3 = limit or ctx.pick(14, 300)
     for i in (0, 1, 2, 99):
         actor_source(i)
-    for (chunks, _p) in pairs + triples:
+    for (chunks, _p) in PAIRS + BIG_PAIRS + TRIPLES:
         base_repo(chunks)
-    tasks = [(dict(chunks=c, programs=[[list(x) for x in prog] for prog in p]), limit2) for (c, p) in pairs]
-    tasks += [(dict(chunks=c, programs=[[list(x) for x in prog] for prog in p]), limit3) for (c, p) in triples]
-    outs = ctx.pmap(explore_task, tasks, chunksize=1)
+
+    def mk(c, p):
+        return dict(chunks=c, programs=[[list(x) for x in prog] for prog in p])
+    tasks = []
+    for (c, p) in PAIRS:
+        tasks += [(mk(c, p), 100000, [0], "all"), (mk(c, p), 100000, [1], "all")]
+    for (c, p) in BIG_PAIRS:
+        tasks += [(mk(c, p), lim_big // 2, [0], "big"), (mk(c, p), lim_big // 2, [1], "big")]
+    for (c, p) in TRIPLES:
+        tasks += [(mk(c, p), lim3, [], "3")]
+    outs = ctx.pmap(explore_task, [t[:3] for t in tasks], chunksize=1)
     complete = True
     cases, lines, impls = [], [], []
     for (task, out) in zip(tasks, outs):
@@ -644,16 +656,22 @@ def run(ctx, pairs=None, triples=None, limit=None):
             ctx.extra.setdefault("task_errors", []).append(out["error"][:400])
             complete = False
             continue
-        if len(task[0]["programs"]) == 2 and not out["complete"]:
+        if task[3] == "all" and not out["complete"]:
             complete = False
-        ctx.count("schedules:%d-actors" % len(task[0]["programs"]), len(out["results"]))
+        ctx.count("schedules:%s" % dict(all="2-actors-exhaustive", big="2-actors-long", **{"3": "3-actors"})[task[3]],
+                  len(out["results"]))
         for r in out["results"]:
             judge(ctx, r)
+            if r["same_name_twice"]:
+                # excluded input of the model (two processes wrote byte-identical packs, e.g. two packers
+                # combining the same packs: same content hash = same name); the oracle above still applies
+                ctx.count("excluded:same-pack-name-written-twice")
+                continue
             cases.append(dict(chunks=r["case"]["chunks"], programs=r["case"]["programs"], schedule=r["schedule"]))
             lines.append(r["line"])
             impls.append(r["impl"])
     ctx.exhaustive = complete
-    ctx.extra["two_actor_schedules_complete"] = complete
+    ctx.extra["exhaustive_pairs"] = [dict(chunks=c, programs=p) for (c, p) in PAIRS]
     if lines and ctx.model_available:
         outs = ctx.model(lines)
         for c, l, i, m in zip(cases, lines, impls, outs):
@@ -667,7 +685,7 @@ def run(ctx, pairs=None, triples=None, limit=None):
 
 
 def widen(ctx):
-    run(ctx, limit=1500)
+    run(ctx, limit=400)
 
 
 def replay(ctx, case):
@@ -683,7 +701,8 @@ def replay(ctx, case):
                 missing_files=r["missing_files"], line=line, impl=impl,
                 reads=[(i, cc[1], cc[2], [k.decode() for k, v in cc[3].items()])
                        for i, rs in enumerate(r["results"]) for cc in rs if cc[0] == "read"],
-                nactions=len(r["actions"]), kinds="".join(a[1] for a in r["actions"]))
+                nactions=len(r["actions"]), kinds="".join(a[1] for a in r["actions"]),
+                same_name_twice=r["same_name_twice"])
     judge(ctx, slim)
     m = ctx.model([line])[0]
     mm = canon_model_reply(m, len(c["programs"])) if m != "bad-op" else m
